@@ -20,6 +20,7 @@ import (
 	"fmt"
 	"log"
 	"reflect"
+	"strings"
 	"sync"
 	"time"
 
@@ -137,4 +138,19 @@ func warnUnplaceableTimestamp(tsProp string) {
 			"events are being dropped. Declare WITH (TIMESTAMP=%q, TIMEUNIT='ms'|'s'|'us'|'ns')",
 			tsProp, tsProp)
 	})
+}
+
+// groupKeySeparator joins the components of a composite group key.
+const groupKeySeparator = "|"
+
+// nullKeyPart is the key component of a missing or NULL group field. escapeKeyPart
+// never produces it (a backslash is always followed by a backslash or the separator),
+// so NULL forms its own group, distinct from the empty string.
+const nullKeyPart = `\N`
+
+// escapeKeyPart escapes the escape character and the separator inside one key
+// component, so that values containing "|" cannot make two different tuples
+// collide once the components are joined.
+func escapeKeyPart(s string) string {
+	return strings.ReplaceAll(strings.ReplaceAll(s, `\`, `\\`), groupKeySeparator, `\`+groupKeySeparator)
 }
